@@ -1,7 +1,7 @@
 # C05 spec (see tools/props.py)
 SPEC = {
         "ready": True,
-        "sources": ["c05.cpp", "c05_alias.cpp", "c05_exact_f.cpp", "c05_exact_d.cpp", "c05_det_f.cpp", "c05_det_d.cpp",
+        "sources": ["c05.cpp", "c05_alias.cpp", "c05_dirty.cpp", "c05_exact_f.cpp", "c05_exact_d.cpp", "c05_det_f.cpp", "c05_det_d.cpp",
                     "c05_round_f.cpp", "c05_round_d.cpp", "c05_mixed_f.cpp", "c05_mixed_d.cpp", "c05_intvec.cpp"],
         "lib": ["half.cpp"],
         "technique": "exhaustive enumeration of integer lattices, prime-scaled basis-element pairs and 0/+-1 sparsity patterns "
@@ -18,7 +18,7 @@ SPEC = {
                       "(S in {float, double, int, short, int64_t, half}, T in {float, double}; integer and dyadic-fraction matrices whose sums are exact "
                       "in both types; homogeneous quotient = the rational rounded once in S resp. the C++ integer quotient), dot and cross of the "
                       "short / int / int64_t / half vector instantiations against 128-bit integer sums up to the top of each type's overflow-free range, "
-                      "the Quat 4-D dot (operator^, euclideanInnerProduct), and the static Matrix44::multiply(a,b,c) with c aliasing a and/or b.",
+                      "the Quat 4-D dot (operator^, euclideanInnerProduct), and the static Matrix44::multiply(a,b,c) with c aliasing a and/or b. Added for the stale-destination class of seeded changes: Matrix44::multiply(a,b,c), multVecMatrix / multDirMatrix (22/33/44, vector type equal to and different from the matrix type), transposed / transpose and outerProduct into destinations pre-filled with distinct primes / sign-flipped primes / NaN in every slot must leave bitwise what they leave in a fresh destination.",
         "level_note": "Bounded: exact equality is decided on the enumerated lattices only (a wrong index, sign or skipped term is visible "
                       "there because every bilinear term is exercised in isolation and in dense generic combination); the rounding bound is "
                       "checked on 4032 graded operand pairs per dimension, not on all floats. Trusts x86-64 long double and IEEE division.",
@@ -28,7 +28,7 @@ SPEC = {
                 "non-singular matrix, a homogeneous product with affine (w=1) or projective last column or an inexact quotient, a "
                 "sparsity pattern with an affine last column, a homogeneous divide by a w that is not a power of two, a product whose vector and matrix "
                 "element types differ (integral / narrower / wider S; fractional matrix entries with integer sums; truncated integer quotients), integer vector "
-                "operands near the top of the overflow-free range (int64_t products above 2^53), a static multiply whose destination is a source "
+                "operands near the top of the overflow-free range (int64_t products above 2^53), a static multiply whose destination is a source, a destination object holding primes or NaN in every slot "
                 "('.generic' classes excluded)",
         "assumptions": ["long double has a 64-bit significand (x86-64)",
                         "default build configuration: g++ -O2 -std=c++14, no FMA contraction, no -ffast-math"],
